@@ -272,6 +272,9 @@ func TestVerifC01(t *testing.T) {
 	for _, c := range []string{"tcp", "ws", "tcp+starttls"} {
 		items = append(items, item{c, "stdio"})
 	}
+	for _, c := range []string{"tcp", "wss", "udp"} {
+		items = append(items, item{c, "socks"}) // the channel is the server's built-in SOCKS5 proxy
+	}
 	for idx, it := range items {
 		if !rec.Mine(idx) {
 			continue
@@ -288,6 +291,10 @@ func TestVerifC01(t *testing.T) {
 				runCase(rec, p, c)
 				p.Close()
 			}
+			continue
+		}
+		if it.Lst == "socks" {
+			runSocks(rec, it.Carrier, cs)
 			continue
 		}
 		// tcp listeners go with tcp targets, unix listeners with unix targets: both channel address kinds are covered
@@ -307,5 +314,66 @@ func TestVerifC01(t *testing.T) {
 			}
 		}
 		p.Close()
+	}
+}
+
+// runSocks: the same transfers over a socks:// channel (SOCKS5 CONNECT to a TCP recording target).
+func runSocks(rec *vcommon.Rec, carrier string, cs []*c01Case) {
+	p, err := e2e.Start(e2e.Options{Carrier: carrier, Channels: []e2e.ChanSpec{{Name: "echo", Socks: true}}})
+	if err != nil {
+		rec.Violation(carrier+":socks:setup-failed", map[string]string{"carrier": carrier}, err.Error())
+		return
+	}
+	defer p.Close()
+	tgt, err := e2e.NewTarget("socks-target", "tcp", "", false)
+	if err != nil {
+		rec.Inconclusive("target: "+err.Error(), carrier)
+		return
+	}
+	defer tgt.Close()
+	fails := 0
+	for _, c := range cs {
+		if c.LenC2T > 1<<20+1 || c.LenT2C > 1<<20+1 {
+			continue
+		}
+		rec.Mark(c)
+		key := fmt.Sprintf("%s/socks/%d/%d/%d/%d/%d", c.Carrier, c.LenC2T, c.LenT2C, c.SegC2T, c.SegT2C, c.Content)
+		app, t, o, err := p.OpenSocks("echo", tgt)
+		if err != nil || o != e2e.Done {
+			if o == e2e.Inconclusive {
+				rec.Inconclusive("busy at socks open", c)
+				continue
+			}
+			rec.Case(key, true)
+			rec.Violation(carrier+":socks:open-failed", c, fmt.Sprint(err, " ", o))
+			if app != nil {
+				app.Close()
+			}
+			if fails++; fails >= 2 {
+				return
+			}
+			continue
+		}
+		rng := vcommon.NewRand(c.Seed, "c01seg/"+key)
+		ab := &e2e.Stream{Key: uint64(c.Seed)*4 + 1, Len: c.LenC2T, Content: c.Content, Seg: seg(c.SegC2T, rng, c.LenC2T)}
+		ba := &e2e.Stream{Key: uint64(c.Seed)*4 + 2, Len: c.LenT2C, Content: c.Content, Seg: seg(c.SegT2C, rng, c.LenT2C)}
+		f := e2e.Duplex(app, t, ab, ba, "c2t", "t2c", []uint64{ab.Key, ba.Key})
+		if f == nil {
+			app.Close()
+			f = e2e.ExpectEOF(t, "c2t")
+		}
+		app.Close()
+		t.Close()
+		rec.Case(key, f == nil || !f.Inconclusive)
+		rec.Seen("carrier", c.Carrier+"/socks")
+		if f == nil {
+			rec.Stat("connections:"+c.Carrier+"/socks", 1)
+			rec.Stat("bytes_verified_c2t:"+c.Carrier, c.LenC2T)
+			rec.Stat("bytes_verified_t2c:"+c.Carrier, c.LenT2C)
+		} else if f.Inconclusive {
+			rec.Inconclusive(f.Kind, c)
+		} else {
+			rec.Violation(carrier+":socks:"+f.Kind+":len"+lenClass(maxI(c.LenC2T, c.LenT2C)), c, f.Info)
+		}
 	}
 }
